@@ -62,6 +62,12 @@ pub fn o_skip(input: &[u8], p: &P) -> Out {
 		}
 		same_sem(&full, &sk, "slp")?;
 		empty_frames(&sk, &rg, "slp")?;
+		// a stream that does not start at position 0 (replay embedded in a container): the jump must be relative
+		let skp = read_slp_from(crate::env::PrefixedReader::new(input, 4099), true, p.hash).map_err(|f| e(&format!("skip-read-failed-at-offset:{}", f.key()), format!("skip_frames read fails when the reader starts at position 4099 instead of 0: {}", f.describe())))?;
+		same_sem(&full, &skp, "slp-at-offset")?;
+		if skp.hash != full.hash {
+			return Err(e("skip-hash-at-offset", "hash differs when the reader starts at a non-zero position".into()));
+		}
 		// the result can be written and re-read
 		let w = write_slp(&sk).map_err(|f| e(&format!("skip-write-failed:{}", f.key()), format!("writing the skip_frames game failed: {}", f.describe())))?;
 		let back = read_slp(&w, false, false).map_err(|f| e(&format!("skip-reread-failed:{}", f.key()), format!("the written skip_frames game cannot be read: {}", f.describe())))?;
